@@ -86,6 +86,9 @@ func (p *pki) leaf(name string, client bool, extra int) tls.Certificate {
 		ExtKeyUsage: []x509.ExtKeyUsage{x509.ExtKeyUsageServerAuth, x509.ExtKeyUsageClientAuth}}
 	if !client {
 		tmpl.DNSNames = []string{name}
+		if ip := net.ParseIP(name); ip != nil { // a certificate for an IP-literal origin
+			tmpl.DNSNames, tmpl.IPAddresses = nil, []net.IP{ip}
+		}
 	}
 	der, err := x509.CreateCertificate(rand.Reader, tmpl, p.ca, &k.PublicKey, p.caKey)
 	if err != nil {
